@@ -299,6 +299,48 @@ func TestVerifC06(t *testing.T) {
 			}
 		}
 	}
+	// the level the certificate endpoint accepts, under the certificate settings of other deployments (names the
+	// setting does not act on - BootstrapOTP, federated, a misspelt one - next to the ones it does): a credential below
+	// that level obtains nothing, whichever names are listed beside the ones it could have proven
+	for _, cfg := range [][]string{{"U2F", "BootstrapOTP"}, {"TOTP", "federated"}, {"u2f"}, {"SymantecVIP", "Okta2FA", "no-such-method"}, {}} {
+		L := map[string]bool{}
+		for _, m := range cfg {
+			L[m] = true
+		}
+		env.SetAllowedCerts(cfg)
+		for _, cred := range shapes {
+			for _, origin := range []string{"none", "cross-origin"} {
+				user := "alice"
+				if cred.IPCert || (cred.Kind == "cert" && cred.User != "") {
+					user = cred.User
+				}
+				q := verifReq{Method: "POST", Path: "/certgen/" + user, Header: map[string]string{}, Multipart: map[string]string{"type": "x509", "duration": "1h"},
+					FileField: "pubkeyfile", FileData: verifPKIXPEM(verifUserECKey().Public())}
+				if origin == "cross-origin" {
+					q.Header["Origin"] = "https://evil.example"
+				}
+				cred.Apply(&q)
+				resp := env.Do(q.Build())
+				exp := c01Expect(L, cred, "POST", false)
+				if origin != "none" && exp == "issue" {
+					exp = "refuse" // an ambient credential riding on another site's request
+					if cred.Kind != "cookie" && cred.Kind != "cert" {
+						exp = "unspec"
+					}
+				}
+				signed := verifSignedMaterial(resp)
+				rep.Eval(fmt.Sprintf("certificate-level|L=%s|%s|%s|%s|signed=%v", strings.Join(cfg, ","), cred.Name, origin, exp, len(signed) > 0))
+				rep.Count("certificate_level_probes", 1)
+				if exp == "refuse" && (len(signed) > 0 || resp.Code == 200) {
+					cs := c06Case{Route: "/certgen/", Path: q.Path, Method: "POST", Origin: origin, Cred: cred.Name, Class: "any-session", Status: resp.Code, Effects: signed,
+						Note: "allowed_auth_backends_for_certs=" + strings.Join(cfg, ",")}
+					rep.Violate("C06/below-certificate-level/"+cred.Name+"/L="+strings.Join(cfg, ","), "a credential below the level the certificate endpoint accepts obtained signed material", cs)
+				}
+			}
+		}
+	}
+	env.SetAllowedCerts([]string{"U2F"})
+	rep.Floor("certificate_level_probes", 300)
 	for r := range unclassified {
 		rep.Obs("route %s is registered but not classified by the specification table: only the invalid-credential and cross-site rules were applied", r)
 	}
